@@ -205,6 +205,14 @@ DemoteBlocks(names) ==
     /\ UNCHANGED <<blockDict, conns, connDict, connNames, rocks, rockDict>>
     /\ last' = [op |-> "demote_block", names |-> names]
 
+(* A call outside an operation's precondition that the library rejects (or should reject) by raising: renaming a rock
+   type onto a name in use, deleting something that is not there, MINC whose generated matrix names collide.  A
+   "clean" refusal leaves the grid as it was; after any refusal the grid is still consistent (the state invariants
+   are evaluated in the state it leaves behind, whatever that is).  Only recorded executions take this action. *)
+Refused(c) ==
+    /\ c.clean => UNCHANGED vars
+    /\ last' = c
+
 (* rename_blocks(m): simultaneous substitution; m restricted to live names is
    injective and its targets do not collide with an un-renamed live name.   *)
 Ren(m, n) == IF n \in DOMAIN m THEN m[n] ELSE n
